@@ -85,6 +85,28 @@ def run(ctx):
                        "mus": [[float(v) for v in m] for m in mus],
                        "data": {"data": [float(v) for row in data for v in row], "shape": [T, n], "layout": ["C", "F", "strided"][i % 3]}})
         ll_exact.append((thetas, mus, data))
+    # long tables with stuck stretches (runs of identical consecutive windows, as flat-lined sensors produce):
+    # long enough that every thread of the parallel loop gets a chunk, stretches long enough to straddle chunk
+    # boundaries; each row's likelihood must not depend on which rows a neighbouring thread has finished
+    for i in range(3 if ctx.quick() else 12):
+        n = ctx.rng.randint(1, 3)
+        K = ctx.rng.randint(2, 3)
+        T = ctx.rng.randint(1500, 4000)
+        thetas = [c05.spd_dyadic(ctx.rng, n) for _ in range(K)]
+        mus = [[Fraction(ctx.rng.randint(-32, 32), 8) for _ in range(n)] for _ in range(K)]
+        data = []
+        while len(data) < T:
+            if ctx.rng.random() < 0.5:
+                row = [Fraction(ctx.rng.randint(-128, 128), 8) for _ in range(n)]
+                data.extend([row] * ctx.rng.randint(T // 6, T // 2))
+            else:
+                data.extend([[Fraction(ctx.rng.randint(-128, 128), 8) for _ in range(n)] for _ in range(ctx.rng.randint(5, T // 8))])
+        data = data[:T]
+        lljobs.append({"W": 1, "thetas": [[[float(v) for v in r] for r in t] for t in thetas],
+                       "mus": [[float(v) for v in m] for m in mus],
+                       "data": {"data": [float(v) for row in data for v in row], "shape": [T, n], "layout": "C"}})
+        ll_exact.append((thetas, mus, data))
+        ctx.count("ll_tables_with_stuck_stretches")
     runs = [] if ctx.replay is not None else [tu.gen_config(ctx.rng) for _ in range(3 if ctx.quick() else 12)]
     job = {"kernel": kjobs, "ll": lljobs, "runs": runs}
 
@@ -133,6 +155,7 @@ def run(ctx):
     for i, (thetas, mus, data) in enumerate(ll_exact):
         n = len(mus[0])
         ref = results[names.index("nojit")]["ll"][i]
+        qcache = {}
         for name, r in zip(names, results):
             got = r["ll"][i]
             if "error" in got or "error" in ref:
@@ -142,8 +165,11 @@ def run(ctx):
             for p_, row in enumerate(got["table"]):
                 for k, hx in enumerate(row):
                     v = float.fromhex(hx)
-                    d = [data[p_][j] - mus[k][j] for j in range(n)]
-                    q = sum(d[a] * thetas[k][a][b] * d[b] for a in range(n) for b in range(n))
+                    qkey = (tuple(data[p_]), k)
+                    if qkey not in qcache:
+                        d = [data[p_][j] - mus[k][j] for j in range(n)]
+                        qcache[qkey] = sum(d[a] * thetas[k][a][b] * d[b] for a in range(n) for b in range(n))
+                    q = qcache[qkey]
                     want = 0.5 * (float.fromhex(got["logdets"][k]) - float(q) - n * math.log(2 * math.pi))
                     if abs(v - want) > 1e-12 * max(1.0, abs(want)):
                         ctx.violation("impl-violation", f"mode {name}: table[{p_},{k}] = {v} != formula {want}",
